@@ -136,6 +136,18 @@ example : Deep.T.call 8 exHeap Gen.Deep.T_MapOf_Load [.key 515] = some [.val 30,
 example : Deep.T.call 8 exHeap Gen.Deep.T_MapOf_Load [.key 129] = some [.zeroV, .bool false] := by rfl
 example : Deep.T.call 8 exHeap Gen.Deep.T_MapOf_Load [.key 2] = some [.zeroV, .bool false] := by rfl
 
+/-! A false positive of the byte trick, rejected by `==`: bytes `02 03` against the searched byte `02` - the borrow of the
+subtraction marks byte 1 although `03 ≠ 02` - and the printed `Load` still answers by key. -/
+def exHeapFP : Deep.T.Heap Nat Nat :=
+  { chains := [[⟨0x8080808080800302#64, [some (2, 20), some (3, 30), none, none, none]⟩]],
+    seed := 0#64, hasher := fun k _ => BitVec.ofNat 64 k }
+
+example : (Model.Words.candidates (Gen.broadcast 2#8) 0x8080808080800302#64).getLsbD 7 = true ∧
+    (Model.Words.candidates (Gen.broadcast 2#8) 0x8080808080800302#64).getLsbD 15 = true := by decide
+example : Deep.T.call 8 exHeapFP Gen.Deep.T_MapOf_Load [.key 130] = some [.zeroV, .bool false] := by rfl
+example : Deep.T.call 8 exHeapFP Gen.Deep.T_MapOf_Load [.key 2] = some [.val 20, .bool true] := by rfl
+example : Deep.T.call 8 exHeapFP Gen.Deep.T_MapOf_Load [.key 3] = some [.val 30, .bool true] := by rfl
+
 /-! ### the lookup path of the string-keyed `Map`, printed from the source -/
 
 omit [Inhabited V] in
